@@ -90,6 +90,11 @@ const STATEMENTS: &[(&str, &[&str])] = &[
     ("x := std.len([0, 0])", &["x"]),
     ("y := h(7, x)", &["y"]),
     ("y := h(x + 1, h(2, x))", &["y"]),
+    // a file that reads a name of the importing program, imported more than once with the name
+    // re-bound in between: every import site is checked and folded where it stands
+    ("x := 1; m := import \"/verif/harness/corpus/uses_outer.ssl\"", &["x", "m"]),
+    ("n := import \"/verif/harness/corpus/uses_outer.ssl\"; y := (m.y, n.y, n.z(1))", &["n", "y"]),
+    ("y := { x := 5; k := import \"/verif/harness/corpus/uses_outer.ssl\"; k.y }", &["y"]),
 ];
 
 fn dump_vars(interp: &Interpreter, names: &BTreeSet<String>) -> String {
